@@ -1,11 +1,11 @@
 //@@ include ../common/prelude.rs
 // Unit `rte` — property C11, the link between the order `routes.sort()` uses and the verified order on rules: Route<T>'s PartialEq / PartialOrd / Ord
 // delegate to the handler's (for T = api::Rule: the comparison functions verified in unit `act` against rank-descending-then-id-descending).
-// Only the `handler` field is read by these functions; the other fields of Route are dropped from the shim struct.
 use std::cmp::Ordering;
 use vstd::std_specs::cmp::*;
 verus! {
-pub struct Route<T> { pub handler: T, pub vf_rest: u8 }
+// the fields of the real struct that are plain data (the matcher-specific ones — host / path patterns, header, ip, date-time triggers — are foreign to this unit and dropped)
+pub struct Route<T> { pub handler: T, pub scheme: Option<String>, pub methods: Option<Vec<String>>, pub exclude_methods: Option<bool>, pub id: String, pub priority: i64 }
 // R7: the trait impls are verified as inherent methods (std's sort reaches them through the traits: listed assumption)
 impl<T: PartialEq> Route<T> {
     //@@ fn src/router/route.rs :: impl <T>PartialEqforRoute<T>whereT:PartialEq, / fn eq -> r
